@@ -76,9 +76,11 @@ CLAIMS = {
              "own line (nothing reordered, duplicated or invented); with group finding off every non-empty line becomes exactly one segment (nothing dropped). "
              "'Never a shorter message' is FALSE with group finding on (finding D4): kernel-checked witness C03_witness_drop. Inside a segment, on the cascade model (Hl7.Casc, compared with the real element tree under C01): "
              "C03_parse_keeps_every_piece - for every list of levels and EVERY text (canonical or not, trailing empty pieces, more pieces than positions) the leaves of the "
-             "parsed tree, in order, are exactly the pieces the text consists of. That encoding gives them back (non-canonical text) is decided by the correspondence + oracle (partial); every "
+             "parsed tree, in order, are exactly the pieces the text consists of; and C03_encode_keeps_every_piece - for every list of levels with pairwise distinct separators and every text "
+             "that fits the widths (canonical or not: trailing empties, empty repetitions, components made of separators only) enc(parse s) consists of the same pieces in the same order. "
+             "Fields beyond the table width (overflow) and the tie of the full parser model to the cascade are decided by the correspondence + oracle (partial); every "
              "parse result is also recomputed in another order in one process (history independence).",
-        note=NOTE_COMMON + "Leaf values are canonical; the within-segment leaf clause is a theorem for the parse half on the cascade model only.",
+        note=NOTE_COMMON + "Leaf values are canonical; the within-segment leaf clause is a theorem on the cascade model (parse: every text; encode: texts within the table widths).",
         technique="Lean 4 proof (induction over the line fold with a zipper invariant) + kernel-checked counterexample + differential correspondence",
         design="DESIGN.md §5 C03"),
     'C08': dict(
